@@ -1,0 +1,8 @@
+// SPDX-License-Identifier:Apache-2.0
+
+//go:build !verif
+
+package native
+
+// verifPoint is a no-op in regular builds (see verif_hook.go).
+func verifPoint(string, *session) {}
